@@ -167,7 +167,8 @@ class Check:
             seen_keys.add(f.key)
         instances = sum(r.instances for r in self.results)
         wall = time.time() - self.t0
-        os.makedirs(os.path.join(VERIF, "evidence"), exist_ok=True)
+        evdir = os.environ.get("VERIF_EVIDENCE_DIR") or os.path.join(VERIF, "evidence")
+        os.makedirs(evdir, exist_ok=True)
         rules = {}
         samples = []
         analysed = set()
@@ -220,7 +221,7 @@ class Check:
             "wall_s": round(wall, 3),
             "violations": len(new),
         }
-        evpath = os.path.join(VERIF, "evidence", f"{self.prop}.json")
+        evpath = os.path.join(evdir, f"{self.prop}.json")
         with open(evpath, "w", encoding="utf-8") as fh:
             json.dump(ev, fh, indent=1, sort_keys=True)
             fh.write("\n")
@@ -237,8 +238,9 @@ class Check:
             if not new:
                 return 2
         if new:
-            os.makedirs(os.path.join(VERIF, "replay"), exist_ok=True)
-            rpath = os.path.join(VERIF, "replay", f"{self.prop}.{self.tier}.json")
+            rdir = os.environ.get("VERIF_REPLAY_DIR") or os.path.join(VERIF, "replay")
+            os.makedirs(rdir, exist_ok=True)
+            rpath = os.path.join(rdir, f"{self.prop}.{self.tier}.json")
             with open(rpath, "w", encoding="utf-8") as fh:
                 json.dump([f.as_dict() for f in new], fh, indent=1)
             for f in new:
